@@ -385,7 +385,8 @@ theorem generateMesh_junction3_witness :
     ((tripleCover.generateMesh 2 false).mesh.vertex? 0).isSome = false := by decide +kernel
 
 /- PENDING (no theorem):
-   * `generateMesh m ne true` (the replace_short_edges loop): see Props/C09join.lean (finding D17).
+   * `generateMesh m ne true` (the replace_short_edges loop): proved in Props/C11merge.lean when the merged pairs are
+     pairwise vertex-disjoint; chains of merges remain without theorem (finding D17, Props/C09join.lean).
    * "no parallel mesh edges / no two cells with the same cycle in the result" under a hypothesis "no two interfaces
      have the same resampled image up to reversal": not stated; `generateMesh_parallel_collapse_witness` shows what
      happens without it.
